@@ -270,6 +270,19 @@ def limited_cases(rng, n):
     for _ in range(n):
         k = rng.choice(LIMITS)
         c = rng.random()
+        if rng.random() < 0.4:
+            # ... or through a reader with a seam: a bytes() request that would straddle it is refused (DECS / AVPSS)
+            if c < 0.6:
+                b = corpus.rand_valid_ctrl_bytes(rng, rng.randrange(1, 6))
+            elif c < 0.8:
+                b = corpus.rand_valid_data_bytes(rng)
+            else:
+                b = perturb(rng, corpus.rand_valid_ctrl_bytes(rng))
+            if rng.random() < 0.75:
+                out.append(('DECS\t%d\t%d\t%s' % (rng.randrange(0, len(b) + 2), rng.randrange(8), b.hex()), 'seam_message'))
+            else:
+                out.append(('AVPSS\t%d\t%s' % (rng.randrange(0, max(1, len(b) - 10)), b[12:].hex()), 'seam_avps'))
+            continue
         if c < 0.45:
             out.append(('DECL\t%d\t%d\t%s' % (k, rng.randrange(8), corpus.rand_valid_ctrl_bytes(rng, rng.randrange(1, 6)).hex()), 'limited_ctrl'))
         elif c < 0.65:
@@ -760,9 +773,9 @@ def run_c04(ctx):
 # =============================================================================== C05
 def c05_obs(c, r):
     ch = c.split('\t', 1)[0]
-    if ch in ('DEC', 'DEC0', 'DECL'):
+    if ch in ('DEC', 'DEC0', 'DECL', 'DECS'):
         return r if cls(r) == 'Ok' else cls(r)
-    if ch in ('AVPS', 'AVPSL'):
+    if ch in ('AVPS', 'AVPSL', 'AVPSS'):
         if cls(r) != 'List':
             return cls(r)
         body = strip_rem(r)[1:-1]
@@ -2422,6 +2435,10 @@ def run_c20(ctx):
         pos = rng.randrange(1, len(recs) + 1)
         b = ctrl_bytes(b''.join(recs[:pos] + [avp_rec(t, pay, m=rng.choice([0, 1]))] + recs[pos:]))
         inj.append('DECL\t%d\t2\t%s' % (k, b.hex())); want.append('Err [AVPReadError(%d)]' % t)
+        if KINDS[TYPE_KIND[t]][1] in ('bytes', 'str') and len(pay) >= 2:
+            # the same message through a reader whose seam falls strictly inside that AVP's value
+            start = 12 + sum(len(r) for r in recs[:pos]) + 6
+            inj.append('DECS\t%d\t2\t%s' % (start + rng.randrange(1, len(pay)), b.hex())); want.append('Err [AVPReadError(%d)]' % t)
         if rng.random() < 0.2:
             d = data_bytes(rbytes(rng, n), rng.random() < 0.5, rng.random() < 0.5)
             inj.append('DECL\t%d\t%d\t%s' % (k, rng.randrange(8), d.hex())); want.append('Err [MessageReadError]')
